@@ -15,6 +15,7 @@ PROPERTY = "C13"
 LEVEL = "exploration"
 BUDGET = {"quick": 96, "thorough": 9600}
 WALL_CAP = {"quick": 200, "thorough": 3000}
+VIOLATION_IS_NONDETERMINISM = True
 CHUNK = 2
 BATCH = 150
 RULE = ("one farm run = a batch of %d generated cases (1-5 named streams with "
